@@ -325,3 +325,20 @@ def index_helper_postcondition(prog, rep):
                        "get_index_impl can return index == indices.end (or the bound is not established): the accessors index one past the table",
                        b.loc(st.get("ln")))
     rep.floor(rule, n, 1, "Some(..) in get_index_impl")
+    # get_index_opt: -1 (and only -1) means "absent"; everything else goes through get_index
+    from .common import holds_at, want_relations
+    o = prog.one("libtw2_map::reader::get_index_opt")
+    oir = IR(o)
+    k = 0
+    for bi in sorted(o.live):
+        for si, st in enumerate(o.blocks[bi]["st"]):
+            if st["k"] == "assign" and st["r"]["k"] == "agg" and st["r"].get("variant") == "None" and o.blocks[bi]["st"][si:]:
+                rels = holds_at(oir, bi)
+                if any(r[0] != "bool" and r[1] == "Eq" for r in rels):
+                    k += 1
+                    want_relations(rep, rule, "get_index_opt | Ok(None) exactly for -1", rels, [("index", "Eq", -1)], o.loc(st.get("ln")), "absent index")
+    for bi, t in o.calls():
+        if (t.get("callee") or "").endswith("reader::get_index") or (t.get("callee") or "").endswith("get_index_impl"):
+            k += 1
+            want_relations(rep, rule, "get_index_opt | every other value is range-checked", holds_at(oir, bi), [("index", "Ne", -1)], o.loc(t.get("ln")), "present index")
+    rep.floor(rule, k, 2, "branches of get_index_opt")
